@@ -6,7 +6,33 @@ V = os.path.dirname(os.path.dirname(os.path.abspath(__file__)))
 BASE_TB = ("Trusted: Coq 8.16.1 kernel incl. its bytecode VM (vm_compute; no native_compute, no extraction); "
            "the correspondence harness (generators, table scorers, canonicalisation, cases.v printer/parser); "
            "CPython/NumPy/pandas/sktime as the platform. ")
+RT = ("Axioms (Reals theorems only): ClassicalDedekindReals.sig_forall_dec, sig_not_dec, FunctionalExtensionality.functional_extensionality_dep, "
+      "Classical_Prop.classic (via the stdlib's ln). ")
 CHECKS = {
+    "C01": dict(
+        technique="Coq proof over Reals about the kernels REGENERATED from the source by the translator (prefix-sum identities, likelihood algebra) + correspondence with exact rational twins evaluated in Coq",
+        text="Theorems in coq/Properties/C01.v about the kernels regenerated from /repo on every run, with prefix sums given by the model of col_cumsum(init_zero=True): for every data "
+             "list and every 0 <= s < e <= n the squared-error cost equals the residual sum of squares of X[s:e] (optimal) / the sum of squared errors around the fixed mean; the "
+             "Gaussian variance cost equals n ln(2 pi max(var, 1e-16)) + n, i.e. twice the negative log-likelihood at the MLE above the floor, and twice the negative log-likelihood at "
+             "(mean, var) in fixed mode; the multivariate Gaussian cost's scalar assembly equals n p ln 2pi + n logdet + p n (resp. + quadratic form) and reduces to the univariate "
+             "theorem for p = 1 (partial for p >= 2: NumPy's cov/slogdet/inv are oracles); evaluate returns one row per interval, each depending only on its own interval (batch / "
+             "order / earlier-call independence of the row-wise model). Tie: translator on every run; the exact rational twins generated from the same source are evaluated in Coq "
+             "on dyadic data, must bracket the real value and equal the direct definition in Q; kernels with log are re-evaluated from the translator's IR; every built-in cost and "
+             "parameter mode is compared with the definition computed from X[s:e]; shapes and batch independence are compared bit for bit; the not-positive-definite error branch is exercised.",
+        note=BASE_TB + RT + "translator/py2coq.py with its role signatures is trusted and validated on every run; binary64 rounding is outside the theorems (conditioned tolerance "
+             "1e-9 (sum|terms|+1)); multivariate p >= 2: linear algebra is modelled as oracles, only differential testing against np.linalg.",
+        ref="DESIGN.md section 4 / C01"),
+    "C06": dict(
+        technique="Coq proof over Reals (cost-difference adapters for any cost; CUSUM^2 = L2 change score; optimal <= fixed; split inequalities via ln u <= u - 1) on regenerated kernels + exact integer adapter correspondence",
+        text="Theorems in coq/Properties/C06.v: for ANY cost function the adapter models give C(s,e) - C(s,k) - C(k,e), C_fixed - C_optimal and C(s,e) - C(a,b) - C(pooled), non-negative "
+             "whenever the split inequality / optimal <= fixed holds; for the kernels regenerated from /repo: the squared CUSUM equals the squared-error change score, the L2 saving "
+             "equals the saving of the squared-error cost with baseline mean 0, the optimal-parameter cost never exceeds the fixed-parameter cost (L2; Gaussian variance above the "
+             "floor), splitting an interval never increases the optimal cost (L2; Gaussian variance above the floor) -- exactly the hypotheses consumed by C02 / C03. Multivariate "
+             "Gaussian inequalities are NOT proved (partial): differential run only. Tie: the three real adapters around user-defined exact integer costs must equal the defining "
+             "difference exactly (decided in Coq), including the pooled-surroundings refit; built-in compositions and the direct scores are compared with the definitions from the rows; "
+             "exact rational twin of l2_saving in Coq; translated cusum kernel re-evaluated.",
+        note=BASE_TB + RT + "translator trusted and validated; binary64 rounding outside the theorems; multivariate Gaussian optimal<=fixed / split inequality unproved.",
+        ref="DESIGN.md section 4 / C06"),
     "C02": dict(
         technique="Coq proof (induction/invariants over the PELT loop, unbounded n) + model-vs-code correspondence with a verified checker",
         text="Theorems in coq/Properties/C02.v: for ANY cost function satisfying the split inequality, any n >= 2m, pen >= 0, the model of "
